@@ -703,7 +703,13 @@ class Common:
         self._listener_d.cancel()
 
     def add_connection_hints(self, hints):
+        if not isinstance(hints, list):
+            log.msg(f"invalid connection hints (not a list): {hints!r}")
+            return
         for h in hints:  # hint structs
+            if not isinstance(h, dict):
+                log.msg(f"invalid hint (not an object): {h!r}")
+                continue
             hint_type = h.get("type", "")
             if hint_type in ["direct-tcp-v1", "tor-tcp-v1"]:
                 dh = parse_tcp_v1_hint(h)
